@@ -85,6 +85,22 @@ func (a Any) HoverAtPos(ctx context.Context, pos hcl.Pos) *lang.HoverData {
 			return a.hoverNonComplexExprAtPos(ctx, pos)
 		}
 
+		// a value of a known attribute may be any expression
+		// of the attribute's type, rather than just a literal
+		for _, item := range expr.Items {
+			if !item.ValueExpr.Range().ContainsPos(pos) {
+				continue
+			}
+			attrName, _, isRawKey := rawObjectKey(item.KeyExpr)
+			if !isRawKey || !typ.HasAttribute(attrName) {
+				break
+			}
+			cons := schema.AnyExpression{
+				OfType: typ.AttributeType(attrName),
+			}
+			return newExpression(a.pathCtx, item.ValueExpr, cons).HoverAtPos(ctx, pos)
+		}
+
 		cons := schema.Object{
 			Attributes:            ctyObjectToObjectAttributes(typ),
 			AllowInterpolatedKeys: true,
